@@ -213,20 +213,72 @@ Proof.
       specialize (H H0). lia.
 Qed.
 
-Lemma loop_terminates : forall fuel s c,
-  INV c s -> fuel_inv s -> (phi s <= fuel)%nat ->
-  exists s' c', loop_det tb g tmax delay dur fuel s = Ok s' /\ qu s' = [] /\ INV c' s'.
+
+(* ---------------- the user's rules are consulted at most once per argument ---------------- *)
+Definition OInv (s : est) : Prop :=
+  NoDup (olog s) /\ forall u x, In (u, x) (olog s) -> infd (tlog s) u.
+
+Lemma det_calls_spec : forall u sus, NoDup sus ->
+  NoDup (det_calls u sus) /\ forall a x, In (a, x) (det_calls u sus) -> a = u.
 Proof.
-  induction fuel as [|f IH]; intros s c HI HF Hphi.
+  intros u sus Hnd. unfold det_calls. split.
+  - apply NoDup_rev. constructor.
+    + intros H. apply in_map_iff in H. destruct H as [w [E _]]. discriminate.
+    + clear -Hnd. induction sus as [|a l IH]; simpl; [constructor|].
+      inversion Hnd; subst. constructor; auto.
+      intros H. apply in_map_iff in H. destruct H as [w [E Hw]]. inversion E; subst. contradiction.
+  - intros a x H. apply in_rev in H. destruct H as [H|H]; [inversion H; auto|].
+    apply in_map_iff in H. destruct H as [w [E _]]. inversion E. auto.
+Qed.
+
+Lemma NoDup_app_disj : forall A (l1 l2 : list A), NoDup l1 -> NoDup l2 ->
+  (forall x, In x l1 -> ~ In x l2) -> NoDup (l1 ++ l2).
+Proof.
+  induction l1 as [|a l1 IH]; intros l2 H1 H2 Hd; simpl; auto.
+  inversion H1; subst. constructor.
+  - intros H. apply in_app_or in H. destruct H; [contradiction|]. apply (Hd a); simpl; auto.
+  - apply IH; auto. intros x Hx. apply Hd. simpl. auto.
+Qed.
+
+Lemma step_oinv : forall c s e q',
+  INV c s -> OInv s -> qu s = e :: q' -> (forall src v, qe e = ETrans src v -> In v (gnodes g)) ->
+  OInv (step_det tb g tmax delay dur e (set_qu s q')).
+Proof.
+  intros c s e q' HI [HO1 HO2] Hq Hg. unfold step_det.
+  destruct (qe e) as [src v|u] eqn:He; [|exact (conj HO1 HO2)].
+  change (stat (set_qu s q') v) with (stat s v).
+  destruct (N.eqb (stat s v) stS) eqn:E; [|exact (conj HO1 HO2)].
+  apply N.eqb_eq in E. cbv zeta. change (stat (set_qu s q')) with (stat s).
+  set (sus := sus_nbrs g (fupdN (stat s) v stI) v).
+  assert (Hin_e : In e (qu s)) by (rewrite Hq; left; auto).
+  destruct (i_qjust _ _ _ _ _ _ _ _ _ HI e src v Hin_e He) as [Hvr0 _].
+  assert (Hninf : ~ infd (tlog s) v).
+  { intros H. apply (i_stat _ _ _ _ _ _ _ _ _ HI v Hvr0) in H. contradiction. }
+  destruct (det_calls_spec v sus) as [D1 D2].
+  { unfold sus, sus_nbrs. apply NoDup_filter. apply Hadj. apply (Hg src v eq_refl). }
+  unfold OInv. rewrite ai_olog, ai_tlog. cbn [olog tlog set_qu]. split.
+  - apply NoDup_app_disj; auto. intros [a x] Hx Hx'. apply D2 in Hx. subst. apply Hninf. eapply HO2; eauto.
+  - intros a x H. apply in_app_or in H. destruct H as [H|H].
+    + apply D2 in H. subst. exists (qt e), src. left. auto.
+    + destruct (HO2 a x H) as [t1 [s1 H1]]. exists t1, s1. right. auto.
+Qed.
+
+Lemma loop_terminates : forall fuel s c,
+  INV c s -> OInv s -> fuel_inv s -> (phi s <= fuel)%nat ->
+  exists s' c', loop_det tb g tmax delay dur fuel s = Ok s' /\ qu s' = [] /\ INV c' s' /\ OInv s'.
+Proof.
+  induction fuel as [|f IH]; intros s c HI HO HF Hphi.
   - destruct (qu s) as [|e q'] eqn:Hq.
     + exists s, c. simpl. rewrite Hq. auto.
     + unfold phi in Hphi. rewrite Hq in Hphi. simpl in Hphi. lia.
   - simpl. destruct (qu s) as [|e q'] eqn:Hq.
     + exists s, c. auto.
     + destruct (step_fuel s e q' HF Hq) as [HF' Hlt].
-      apply (IH _ (qt e)); [|exact HF'|lia].
-      apply (step_det_inv tb g tmax delay dur tmin i0 r0 Hdelay Hdur Hadj Htmin c s e q' HI Hq).
-      intros src v He. apply (HF e src v); auto. rewrite Hq. left. auto.
+      assert (Hg : forall src v, qe e = ETrans src v -> In v (gnodes g)).
+      { intros src v He. apply (HF e src v); auto. rewrite Hq. left. auto. }
+      apply (IH _ (qt e)); [| |exact HF'|lia].
+      * apply (step_det_inv tb g tmax delay dur tmin i0 r0 Hdelay Hdur Hadj Htmin c s e q' HI Hq Hg).
+      * apply (step_oinv c s e q' HI HO Hq Hg).
 Qed.
 
 Lemma wS_le_all : forall st l, (wS st l <= fold_right (fun v a => S (length (gadj g v)) + a) O l)%nat.
@@ -251,13 +303,23 @@ Proof.
   rewrite Hq in Hq'. inversion Hq'; subst. auto.
 Qed.
 
+Lemma init_oinv : OInv (init_state tb g tmin tmax i0 r0).
+Proof.
+  unfold init_state. set (s0 := mkE _ _ _ _ _ _ _ _). fold (iniF i0 s0).
+  assert (H : forall l s, olog (iniF l s) = olog s).
+  { induction l as [|a l IH]; intros s; [reflexivity|]. unfold iniF. simpl fold_left.
+    fold (iniF l (init_inf tb tmin tmax s a)). rewrite IH. reflexivity. }
+  unfold OInv. rewrite H. simpl. split; [constructor|intros u x []].
+Qed.
+
 (* the run ends, within the fuel, in a state with an empty queue that satisfies the invariant *)
 Theorem esir_terminates : forall fuel, (esir_fuel g i0 <= fuel)%nat ->
   exists sF cF, esir_run tb g delay dur i0 r0 tmin tmax fuel = Ok sF /\
-                qu sF = [] /\ INV cF sF.
+                qu sF = [] /\ INV cF sF /\ OInv sF.
 Proof.
   intros fuel Hf. unfold esir_run. apply (loop_terminates _ _ tmin).
   - apply init_inv.
+  - apply init_oinv.
   - apply init_fuel_inv.
   - pose proof init_phi. lia.
 Qed.
